@@ -1,7 +1,7 @@
 (* The statement machine of JSRef: a completion flows through a stack of continuation frames
    (ECMA-262 clause 14).  A suspended generator / async body is a saved frame stack. *)
 From Coq Require Import ZArith NArith PArith List Bool String Floats.SpecFloat.
-From JSRef Require Import Float Syntax Values Static Ops Interp.
+From JSRef Require Import Float Syntax Values Static Ops Promises Interp.
 Import ListNotations.
 Open Scope m_scope.
 
@@ -457,6 +457,7 @@ Definition run_step (k : list frame) (comp : completion) (c : ctx) : M mres :=
           | _ => o_run self k' comp c
           end
       | KExprValue => o_run self k' comp c
+      | KAsyncDone pid => do _ <- settle_async self pid comp;; ret (MDone (CNormal None))
       | KYieldStar target decl it nx =>
           (* comp carries what the consumer sent: next(v) / throw(v) / return(v) *)
           let finish (v : value) := guard (bind_resumed c target decl v) k' c (fun _ => o_run self k' (CNormal None) c) in
